@@ -458,6 +458,19 @@ func main() {
 	case "all": // all <histories> <threads> <opsPerThread> <round keys>
 		hist(atoi(0), atoi(1), atoi(2))
 		rounds(atoi(3), atoi(1))
+	case "sched": // sched <random cases> <max schedules per case>: memory backend only
+		runSched(atoi(0), atoi(1))
+	case "schedreplay":
+		verifkit.EachCase(func(i int, raw json.RawMessage) {
+			c := verifkit.Decode[struct {
+				Setup    []call   `json:"setup"`
+				Scripts  [][]call `json:"scripts"`
+				Kind     string   `json:"kind"`
+				Schedule []int    `json:"schedule"`
+			}](raw)
+			rec, _, _ := runSchedule(c.Setup, c.Scripts, c.Schedule, c.Kind)
+			verifkit.Emit(rec)
+		})
 	case "replay":
 		verifkit.EachCase(func(i int, raw json.RawMessage) {
 			c := verifkit.Decode[struct {
